@@ -258,7 +258,7 @@ pub fn c20(ctx: &mut Ctx) {
     ctx.bound("RpsiBuilder", format!("{{payload_type x2, native_data x2, native_data_owned x2}} depth {}", t.pick(5, 6)));
     ctx.bound("feedback builders", "{sender_ssrc x2, media_ssrc x2, padding x2} depth 4 x {builder, builder_owned} x 5 FCI types");
     ctx.bound("AppBuilder / UnknownBuilder / SenderReportBuilder / ReceiverReportBuilder / ReportBlockBuilder", format!("setters x2 values, adders x2, depth {}", t.pick(5, 6)));
-    ctx.bound("NackBuilder / FirBuilder", "add sequences of length <= 5 over {5,6,22,23} / <= 4 over {(a,1),(a,2),(b,1)}");
+    ctx.bound("NackBuilder / FirBuilder", format!("add sequences of length <= 5 over {{5,6,22,23}} and <= {} over {{0,1,17,0x7FFF,0x8000,0x8001,0xFFFE,0xFFFF}} / <= 4 over {{(a,1),(a,2),(b,1),(a,255),(a,0)}}", t.pick(4, 5)));
     ctx.assume("call histories deeper than the stated depths, and argument values outside the 2-3 per call, are not explored");
 
     // BYE
@@ -599,9 +599,24 @@ pub fn c20(ctx: &mut Ctx) {
             all_wraps(l, "NackBuilder", &hist, &model, &|| TransportFeedback::builder(&f).sender_ssrc(3).media_ssrc(4));
         }
     });
-    ctx.run_space("fir-add-histories", seq_count(3, 4) * 2, |idx, l| {
+    // the same over values on both sides of the 16-bit wrap and of the signed midpoint: insertion order must not
+    // matter even when "newer" in RTP serial arithmetic disagrees with numeric order
+    let d_wrap = t.pick(5u32, 6u32);
+    ctx.run_space("nack-add-histories-across-the-wrap", seq_count(8, d_wrap) * 2, |idx, l| {
         let owned = idx % 2 == 1;
-        let seq: Vec<(u32, u8)> = seq_decode(3, idx / 2).iter().map(|&k| [(0xAAu32, 1u8), (0xAA, 2), (0xBB00_0000, 1)][k as usize]).collect();
+        let seq: Vec<u16> = seq_decode(8, idx / 2).iter().map(|&k| [0u16, 1, 17, 0x7FFF, 0x8000, 0x8001, 0xFFFE, 0xFFFF][k as usize]).collect();
+        let model = Pkt::Fb { kind: Kind::Transport, sender: 3, media: 4, fci: Fci::Nack(Fci::nack_set(&seq)), pad: 0 };
+        let hist = || format!("Nack::builder(){}", seq.iter().map(|s| format!(".add_rtp_sequence({})", s)).collect::<String>());
+        if owned {
+            all_wraps(l, "NackBuilder", &hist, &model, &|| TransportFeedback::builder_owned(build::nack_builder(&seq)).sender_ssrc(3).media_ssrc(4));
+        } else {
+            let f = build::nack_builder(&seq);
+            all_wraps(l, "NackBuilder", &hist, &model, &|| TransportFeedback::builder(&f).sender_ssrc(3).media_ssrc(4));
+        }
+    });
+    ctx.run_space("fir-add-histories", seq_count(5, 4) * 2, |idx, l| {
+        let owned = idx % 2 == 1;
+        let seq: Vec<(u32, u8)> = seq_decode(5, idx / 2).iter().map(|&k| [(0xAAu32, 1u8), (0xAA, 2), (0xBB00_0000, 1), (0xAA, 255), (0xAA, 0)][k as usize]).collect();
         if seq.is_empty() {
             return; // the empty FIR list is C05's known finding, not a history question
         }
